@@ -31,8 +31,10 @@ VERBS = ("REGISTER", "UNREGISTER", "MAYBE_UNLINK")
 
 
 def paths(base):
-    A = os.path.join(base, "a")
-    D = os.path.join(base, "d")
+    # the protocol is "CMD:name:rtype" lines: the file's name contains the separator (as every Windows path does),
+    # the folder's name a space and a dot
+    A = os.path.join(base, "a:1:x")
+    D = os.path.join(base, "d .v2")
     B = os.path.join(D, "b")
     return A, B, D
 
@@ -237,6 +239,15 @@ def bfs(cap, full):
 
 # -- (b) real processes -----------------------------------------------------------------
 
+_SLOW = [0]
+
+
+def _patience(seconds):
+    """Waiting is by polling, so a healthy tracker costs nothing even on a loaded machine; once two scenarios of this
+    worker have run into the time-out the tree is broken anyway and the rest waits only briefly."""
+    return seconds if _SLOW[0] < 2 else 3.0
+
+
 def real_scenario(item):
     """item = (history, split, kill1, kill2); runs one real tracker + sequential clients."""
     history, split, kill1, kill2 = item
@@ -272,15 +283,16 @@ def real_scenario(item):
             for c in share:
                 m.step(c)
             # the tracker must converge to the model state while the parent still holds the pipe
-            deadline = time.time() + 5.0
+            deadline = time.time() + _patience(60.0)
             while time.time() < deadline and fs_state(base) != m.fs_tuple():
                 time.sleep(0.005)
             if fs_state(base) != m.fs_tuple():
+                _SLOW[0] += 1
                 problems.append("with a writer still connected, after %r files (a, d/b, d) exist=%r, model=%r" % (share, fs_state(base), m.fs_tuple()))
         os.close(rt._fd)
         rt._fd = None
         # tracker must exit on EOF
-        deadline = time.time() + 10.0
+        deadline = time.time() + _patience(90.0)
         exited = False
         while time.time() < deadline:
             p, _st = os.waitpid(tracker_pid, os.WNOHANG)
@@ -289,7 +301,8 @@ def real_scenario(item):
                 break
             time.sleep(0.005)
         if not exited:
-            problems.append("tracker process still alive 10 s after the last client closed the pipe")
+            _SLOW[0] += 1
+            problems.append("tracker process still alive long after the last client closed the pipe (waited up to 90 s)")
             os.kill(tracker_pid, signal.SIGKILL)
             os.waitpid(tracker_pid, 0)
         m.eof()
